@@ -37,8 +37,9 @@ class Decoder16:
 
 
 class Gear:
-    def __init__(self, short=255, rand=0, store_ok=True, groups=(), dts=(), init="DISABLED"):
+    def __init__(self, short=255, rand=0, store_ok=True, groups=(), dts=(), init="DISABLED", stuck=False):
         self.short, self.rand, self.store_ok = short, rand, store_ok
+        self.stuck = stuck      # Gear102 stuckdel: the address memory cannot be written at all (SET SHORT ADDRESS ignored too)
         self.init = init
         self.groups = set(groups)
         self.dts = list(dts)
@@ -77,7 +78,7 @@ class GearBus:
             self.dtr0 = lb
         elif name == "SetShortAddress":
             for g in G:
-                if self._addressed(g, dest):
+                if self._addressed(g, dest) and not g.stuck:
                     g.short = self._short_from(self.dtr0, g.short)
         elif name == "QueryControlGearPresent":
             ans = [255 for g in G if self._addressed(g, dest)]
